@@ -24,6 +24,8 @@ pub enum RAct {
     Resize(usize, bool),
     Clear,
     Reserve(usize),
+    /// Replace the vector by its complement (`complement()` returns a new vector).
+    Complement,
 }
 
 pub fn r_init(i: &RInit) -> (RawVector, Vec<bool>) {
@@ -43,7 +45,7 @@ pub fn int_of(b: &[bool]) -> u64 {
 }
 
 pub fn r_actions(len: usize, values: &[u64], thorough: bool) -> Vec<RAct> {
-    let mut a = vec![RAct::PushBit(false), RAct::PushBit(true), RAct::PopBit, RAct::Clear, RAct::Reserve(100)];
+    let mut a = vec![RAct::PushBit(false), RAct::PushBit(true), RAct::PopBit, RAct::Clear, RAct::Reserve(100), RAct::Complement];
     let fill = 64 - len % 64; // 1..=64: exactly fills the current word
     let mut widths = vec![1usize, 7, 63, 64, fill];
     if fill < 64 {
@@ -160,6 +162,13 @@ pub fn r_apply(v: &mut RawVector, r: &mut Vec<bool>, act: &RAct) -> Option<Strin
         }
         RAct::Reserve(n) => {
             v.reserve(n);
+            None
+        }
+        RAct::Complement => {
+            *v = v.complement();
+            for b in r.iter_mut() {
+                *b = !*b;
+            }
             None
         }
     }
